@@ -498,3 +498,180 @@ class Languages:
 
     def intersection_witness(self, a, b):
         return self.word(self.dfa[a].product(self.dfa[b], 'and').witness())
+
+
+def _nullable(rx):
+    k = rx[0]
+    if k == 'set':
+        return False
+    if k == 'cat':
+        return all(_nullable(r) for r in rx[1])
+    if k == 'alt':
+        return any(_nullable(r) for r in rx[1])
+    if k == 'rep':
+        return rx[2] == 0 or _nullable(rx[1])
+    return True
+
+
+def _has_unbounded(rx):
+    k = rx[0]
+    if k == 'rep':
+        return rx[3] is None or _has_unbounded(rx[1])
+    if k in ('cat', 'alt'):
+        return any(_has_unbounded(r) for r in rx[1])
+    return False
+
+
+def _nested_ambiguity(rx, alpha, in_loop):
+    """Shapes the product construction cannot see because they live in the
+    epsilon structure: an unbounded repeat of a nullable body that itself
+    repeats ((a*)*), and alternatives inside a loop whose languages share a
+    word ((a|a)*)."""
+    k = rx[0]
+    if k == 'rep':
+        unb = rx[3] is None
+        if unb and _nullable(rx[1]) and _has_unbounded(rx[1]):
+            return 'an unbounded repeat of a body that can match the ' \
+                   'empty string and itself repeats (nested quantifiers)'
+        return _nested_ambiguity(rx[1], alpha, in_loop or unb)
+    if k == 'cat':
+        for r in rx[1]:
+            x = _nested_ambiguity(r, alpha, in_loop)
+            if x:
+                return x
+        return None
+    if k == 'alt':
+        if in_loop:
+            ds = []
+            for r in rx[1]:
+                try:
+                    ds.append(to_dfa(r, alpha))
+                except Unsupported:
+                    ds.append(None)
+            for i in range(len(ds)):
+                for j in range(i + 1, len(ds)):
+                    if ds[i] is None or ds[j] is None:
+                        continue
+                    w = ds[i].product(ds[j], 'and').witness()
+                    if w is not None:
+                        return 'two alternatives inside a loop match the ' \
+                               'same text %r' % ''.join(
+                                   chr(alpha.classes[x][1]) for x in w)
+        for r in rx[1]:
+            x = _nested_ambiguity(r, alpha, in_loop)
+            if x:
+                return x
+    return None
+
+
+def exponential_ambiguity(pattern, flags=0):
+    """Does the backtracking search for `pattern` admit exponentially many
+    ways to match some input?  True iff the (epsilon-free) NFA of the regex
+    has a state q and a word w with two distinct paths q -w-> q (EDA,
+    Weber & Seidl): the classic catastrophic-backtracking shape such as
+    (a|a)*, (a*)* or (\\\\.|[^'])* .  Returns a description or None."""
+    rx, notes = parse(pattern, flags)
+    if rx[0] == 'cat' and rx[1] and rx[1][-1][0] == 'nla':
+        rx = ('cat', rx[1][:-1] + [rx[1][-1][2]])
+    alpha = Alphabet(atoms(rx, set()))
+    shape = _nested_ambiguity(rx, alpha, False)
+    if shape:
+        return shape
+    nfa = NFA()
+    s0 = nfa.new()
+    end = build_nfa(rx, alpha, nfa, s0)
+    n = nfa.n
+
+    def closure(q):
+        seen = {q}
+        stack = [q]
+        while stack:
+            x = stack.pop()
+            for t in nfa.eps.get(x, ()):
+                if t not in seen:
+                    seen.add(t)
+                    stack.append(t)
+        return seen
+    clo = [closure(q) for q in range(n)]
+    # count epsilon paths: two different epsilon routes between the same
+    # states inside a loop are ambiguity too, so keep multiplicities
+    step = {}
+    for q in range(n):
+        for a in range(alpha.size):
+            tgt = {}
+            for x in clo[q]:
+                for t in nfa.delta.get((x, a), ()):
+                    tgt[t] = tgt.get(t, 0) + 1
+            if tgt:
+                step[(q, a)] = tgt
+    # only states that start a consuming transition or are the start matter
+    reach = {s0}
+    stack = [s0]
+    while stack:
+        q = stack.pop()
+        for a in range(alpha.size):
+            for t in step.get((q, a), ()):
+                if t not in reach:
+                    reach.add(t)
+                    stack.append(t)
+    # product graph
+    succ = {}
+    for p in reach:
+        for q in reach:
+            out = set()
+            for a in range(alpha.size):
+                tp = step.get((p, a))
+                tq = step.get((q, a))
+                if tp and tq:
+                    for x in tp:
+                        for y in tq:
+                            out.add((x, y))
+            if out:
+                succ[(p, q)] = out
+    # direct double edges q -a-> t with multiplicity > 1 inside a cycle
+    # Tarjan SCC
+    index = {}
+    low = {}
+    onstack = set()
+    st = []
+    sccs = []
+    counter = [0]
+    import sys
+    sys.setrecursionlimit(max(10000, sys.getrecursionlimit()))
+
+    def strong(v):
+        index[v] = low[v] = counter[0]
+        counter[0] += 1
+        st.append(v)
+        onstack.add(v)
+        for w in succ.get(v, ()):
+            if w not in index:
+                strong(w)
+                low[v] = min(low[v], low[w])
+            elif w in onstack:
+                low[v] = min(low[v], index[w])
+        if low[v] == index[v]:
+            comp = []
+            while True:
+                w = st.pop()
+                onstack.discard(w)
+                comp.append(w)
+                if w == v:
+                    break
+            sccs.append(comp)
+    for v in list(succ):
+        if v not in index:
+            strong(v)
+    for comp in sccs:
+        if len(comp) == 1 and comp[0] not in succ.get(comp[0], ()):
+            continue
+        diag = [v for v in comp if v[0] == v[1]]
+        off = [v for v in comp if v[0] != v[1]]
+        if diag and off:
+            q = diag[0][0]
+            # a short word that loops: breadth-first from (q,q) to an
+            # off-diagonal pair and back
+            return 'state %d can be re-entered along two different paths ' \
+                   'on the same input (e.g. via the pair of states %s)' % (
+                       q, off[0])
+    return None
